@@ -97,7 +97,7 @@ func resC09(g graph.Graph, eg graph.EditableGraph, r *rand.Rand) tr.E {
 	out["kcol"] = kc
 	ci, cols := graph.ChromaticIndex(g)
 	out["chromidx"] = tr.E{"k": ci, "cols": b2i(cols)}
-	out["poly"] = cp(graph.ChromaticPolynomial(eg.Copy()))
+	out["poly"] = cp(graph.ChromaticPolynomial(eg)) // on the caller's own graph: it must come back unchanged (checked through "same")
 	gr := []tr.E{}
 	var orders [][]int
 	if n <= 3 {
@@ -144,7 +144,7 @@ func resC10(g graph.Graph, eg graph.EditableGraph) tr.E {
 	out["comps"] = nn2(graph.ConnectedComponents(g))
 	bl, arts := graph.BiconnectedComponents(g)
 	out["blocks"], out["arts"] = nn2(bl), cp(arts)
-	out["cycles"] = cp(graph.NumberOfCycles(eg.Copy()))
+	out["cycles"] = cp(graph.NumberOfCycles(eg))
 	ic, ip := []tr.E{}, []tr.E{}
 	for _, ml := range lengthBounds(n) {
 		ic = append(ic, tr.E{"ml": ml, "counts": cp(graph.NumberOfInducedCycles(g, ml))})
@@ -165,6 +165,7 @@ func runInv(w *tr.W, in invIn) {
 		var res tr.E
 		outcome := obs.SafeT(20*time.Second, func() {
 			g, eg := variantGraphs(in.G, v)
+			before := fmt.Sprint(obs.Of(g), obs.Of(eg))
 			switch in.Prop {
 			case "C09":
 				res = resC09(g, eg, r)
@@ -173,6 +174,8 @@ func runInv(w *tr.W, in invIn) {
 			default:
 				res = tr.E{"planar": graph.IsPlanar(g)}
 			}
+			// none of these functions may change the graph it is given
+			res["same"] = before == fmt.Sprint(obs.Of(g), obs.Of(eg))
 		})
 		if outcome != "ok" {
 			res = tr.E{}
